@@ -21,7 +21,13 @@ def run(ck):
                                                                 'CC(=O)Oc1ccccc1C(=O)O', 'N[C@@H](C)C(=O)O', 'F/C=C/F', 'C1CCC2CCCCC2C1', 'CCCCCCCC', 'C(C)(C)(C)C', 'c1ccc(cc1)-c1ccccc1', 'C[CH2]', '[CH2]CC', 'C[O]', 'OCCCCCCO', '[CH3].[CH3]', 'CC(=O)[O-].[Na+]', 'OCCO.OCCO', 'CCO.CCN', 'CCO.CCN.CCS', 'CC.CC.CC', 'NCCO.NCCO.O',
                                                                 # equivalent stereo elements (ring pairs, meso and like pairs, E/Z pairs): the canonical order comes from a second ranking pass
                                                                 'C[C@H]1CC[C@@H](C)CC1', 'C[C@H]1CC[C@H](C)CC1', 'O[C@H]1C[C@@H](O)C1', 'F[C@H]1C[C@@H](F)C[C@H](F)C1', 'C[C@H](O)C[C@H](O)C', 'C[C@H](O)C[C@@H](O)C',
-                                                                'C/C=C/CC/C=C\\C', 'C/C=C/CC/C=C/C', 'C[C@H](O)[C@@H](O)C', 'C[n+]1ccn(CC)c1', 'c1c[nH]c[nH+]1', 'CC[n+]1cccn1C', 'Cn1cc[n+](C)c1', 'C[n+]1ccccc1', 'N[C@@H](Cc1c[nH]c[nH+]1)C(=O)O', 'C[C@H](Br)[C@H](Br)C', 'O[C@H]1CC[C@@H](O)CC1.O[C@H]1CC[C@H](O)CC1']
+                                                                'C/C=C/CC/C=C\\C', 'C/C=C/CC/C=C/C', 'C[C@H](O)[C@@H](O)C', 'C[n+]1ccn(CC)c1', 'c1c[nH]c[nH+]1', 'CC[n+]1cccn1C', 'Cn1cc[n+](C)c1', 'C[n+]1ccccc1', 'N[C@@H](Cc1c[nH]c[nH+]1)C(=O)O', 'C[C@H](Br)[C@H](Br)C', 'O[C@H]1CC[C@@H](O)CC1.O[C@H]1CC[C@H](O)CC1',
+                                                                # ring systems joined by chains (the ring views prune the chain atoms), and atom numbers that do not ascend in storage order (a copy must keep the storage order: pack bytes, match lists)
+                                                                'c1ccccc1CCc1ccccc1', 'C1CC1CCCC1CCC1', 'OC1CCC(CC1)CC(C)CC1CC1', 'c1ccccc1OCCOc1ccccc1.C1CC1CC1CC1',
+                                                                '[CH3:5][CH2:2][OH:7]', '[CH3:9][C:3](=[O:8])[O:1][CH2:4][CH3:2]', '[cH:6]1[cH:2][cH:5][cH:1][cH:4][c:3]1[OH:7]', '[CH3:4][CH:2]([CH3:9])[CH:1]=[O:3].[OH2:7]',
+                                                                '[CH2:8]1[CH2:3][CH:6]1[CH2:2][CH2:5][CH:1]1[CH2:7][CH2:4]1',
+                                                                '[OH2:7].[CH3:4][CH:2]=[O:3]', '[CH2:9]1[CH2:8][CH2:7]1.[CH2:3]1[CH2:2][CH2:1]1', '[Na+:5].[Cl-:2]', '[cH:10]1[cH:4][cH:7][c:2]2[cH:9][cH:3][cH:8][cH:1][c:6]2[cH:5]1',
+                                                                '[CH3:6][OH:5].[CH3:4][NH2:3].[CH3:2][SH:1]']
     seeds = [0, 1, ck.seed + 2, 12345] if ck.quick else [0, 1, 2, 3, 7, 11, 101, 12345, 999999, ck.seed + 2, 4242, 31337, 65535, 17, 5, 8]
     if ck.replay:
         sel = [ck.replay_case['case']['input']]
